@@ -149,8 +149,11 @@ CHECKS['C09'] = dict(
           'value matrices of any such grid with distinct names returns every dimension\'s reference values in index '
           'order, every guard of the statement-by-statement model (not starting with 0, non-constant step sizes, ragged '
           'tiles) passing (Usid/Proofs/UnitValues.lean: list algebra for filters over range(H*P), tile structure of a '
-          'periodic row). PARTIAL: create_spec_inds_from_vals (rebuild_indices_statement) is stated, not proved; its '
-          'executable model is compared with the implementation and with the generator\'s ground truth on every case '
+          'periodic row); rebuild_indices - create_spec_inds_from_vals applied to the values matrix of any such grid whose '
+          'dimensions carry pairwise distinct reference values returns exactly the index matrix (the column loop is a '
+          'mixed-radix odometer over the rows sorted by change count: Usid/Proofs/Rebuild.lean odometer_step, '
+          'digit_succ, digit_changes). The executable models are compared with the implementation and with the '
+          'generator\'s ground truth on every case '
           '(thorough: all grids <= 3 dims x sizes <= 3 x all permutations).'),
     note=COMMON_NOTE + 'Guard: at most as many dimensions as points (the shape heuristic of get_sort_order / '
          'get_dimensionality transposes otherwise: known finding KF-D5a). uint32 wrap-around not modelled.',
